@@ -25,6 +25,7 @@ type Ref struct {
 	b        bool
 	kids     []*RefKid // arrays: in order; objects: insertion order (irrelevant)
 	parent   *Ref
+	synth    bool // part of a value synthesised by an expression (not a node of any document)
 }
 
 type RefKid struct {
@@ -700,118 +701,132 @@ func probeHistory(o *Out, ops [][]string) {
 		if p.failed {
 			return
 		}
-		p.hist = append(p.hist, strings.Join(f, " "))
-		op := f[0]
-		if op == "fmt" || op == "dump" || op == "reset" {
-			continue
-		}
-		nBefore := len(p.s.handles)
-		var pubBefore, privBefore string
-		mutation := isMutation(op)
+		p.step(f, true)
+	}
+}
+
+// step executes one request against the library, keeps the plain-data reference in step with it, and
+// (when check is set) evaluates the property probes. It returns the library's observation.
+func (p *probeRun) step(f []string, check bool) string {
+	o := p.o
+	p.hist = append(p.hist, strings.Join(f, " "))
+	op := f[0]
+	if op == "fmt" || op == "dump" || op == "reset" || op == "oracle" {
+		return p.s.Exec(f)
+	}
+	nBefore := len(p.s.handles)
+	var pubBefore, privBefore string
+	mutation := isMutation(op)
+	if check {
 		if mutation {
 			pubBefore = p.publicFingerprint()
 		} else {
 			privBefore = p.privateFingerprint(nBefore)
 		}
-		// the parse op hands the library a guarded sub-slice
-		var obs string
-		if op == "parse" {
-			data := unhex(f[1])
-			buf := bytes.Repeat([]byte{0xAA}, len(data)+24)
-			copy(buf[8:], data)
-			in := buf[8 : 8+len(data) : 8+len(data)+8]
-			root, err := ajson.Unmarshal(in)
-			if err == nil {
-				p.s.handles = append(p.s.handles, root)
-				obs = "ok"
-				p.buffers = append(p.buffers, guarded{buf, append([]byte(nil), buf...)})
-				v, _, derr := refDecode(data)
-				if derr == nil {
-					p.link(root, refFromValue(v, nil))
-				}
-			} else {
-				obs = errStr(err)
+	}
+	// the parse op hands the library a guarded sub-slice
+	var obs string
+	if op == "parse" {
+		data := unhex(f[1])
+		buf := bytes.Repeat([]byte{0xAA}, len(data)+24)
+		copy(buf[8:], data)
+		in := buf[8 : 8+len(data) : 8+len(data)+8]
+		root, err := ajson.Unmarshal(in)
+		if err == nil {
+			p.s.handles = append(p.s.handles, root)
+			obs = "ok"
+			p.buffers = append(p.buffers, guarded{buf, append([]byte(nil), buf...)})
+			v, _, derr := refDecode(data)
+			if derr == nil {
+				p.link(root, refFromValue(v, nil))
 			}
 		} else {
-			var refOK, refKnown bool
-			obs = p.s.Exec(f)
-			if mutation {
-				// the reference forest is still in its pre-state: it decides success from there and then applies the operation
-				refOK, refKnown = p.applyRef(f)
-				if refKnown && refOK != strings.HasPrefix(obs, "ok") {
-					p.fail("C05", "value-vs-plain-data", "the call's success differs from what the operation means on plain data: "+strings.Join(f, " "), fmt.Sprint(refOK), obs)
-				}
+			obs = errStr(err)
+		}
+	} else {
+		obs = p.s.Exec(f)
+		if mutation {
+			// the reference forest is still in its pre-state: it decides success from there and then applies the operation
+			refOK, refKnown := p.applyRef(f)
+			if check && refKnown && refOK != strings.HasPrefix(obs, "ok") {
+				p.fail("C05", "value-vs-plain-data", "the call's success differs from what the operation means on plain data: "+strings.Join(f, " "), fmt.Sprint(refOK), obs)
 			}
 		}
-		if strings.HasPrefix(obs, "panic") {
-			p.fail("C11", "no-panic", "panic in "+strings.Join(f, " "), "", obs)
-			return
-		}
-		// new handles: constructors, clone, pops, navigation
-		if len(p.s.handles) > nBefore {
-			n := p.s.handles[len(p.s.handles)-1]
-			switch op {
-			case "null":
-				p.ref[n] = &Ref{kind: ajson.Null}
-			case "num":
-				p.ref[n] = &Ref{kind: ajson.Numeric, num: bitsOf(f[2])}
-			case "str":
-				p.ref[n] = &Ref{kind: ajson.String, str: string(unhex(f[2]))}
-			case "bool":
-				p.ref[n] = &Ref{kind: ajson.Bool, b: f[2] == "1"}
-			case "arr":
-				r := &Ref{kind: ajson.Array}
-				for _, c := range p.s.ids(f[2]) {
-					if cr := p.ref[c]; cr != nil {
-						cr.parent = r
-						r.kids = append(r.kids, &RefKid{"", cr})
-					}
+	}
+	if strings.HasPrefix(obs, "panic") {
+		p.fail("C11", "no-panic", "panic in "+strings.Join(f, " "), "", obs)
+		return obs
+	}
+	// new handles: constructors, clone, pops, navigation
+	if len(p.s.handles) > nBefore {
+		n := p.s.handles[len(p.s.handles)-1]
+		switch op {
+		case "null":
+			p.ref[n] = &Ref{kind: ajson.Null}
+		case "num":
+			p.ref[n] = &Ref{kind: ajson.Numeric, num: bitsOf(f[2])}
+		case "str":
+			p.ref[n] = &Ref{kind: ajson.String, str: string(unhex(f[2]))}
+		case "bool":
+			p.ref[n] = &Ref{kind: ajson.Bool, b: f[2] == "1"}
+		case "arr":
+			r := &Ref{kind: ajson.Array}
+			for _, c := range p.s.ids(f[2]) {
+				if cr := p.ref[c]; cr != nil {
+					cr.parent = r
+					r.kids = append(r.kids, &RefKid{"", cr})
 				}
-				p.ref[n] = r
-			case "obj":
-				r := &Ref{kind: ajson.Object}
-				m := p.s.kv(f[2])
-				for k, c := range m {
-					if cr := p.ref[c]; cr != nil {
-						cr.parent = r
-						r.kids = append(r.kids, &RefKid{k, cr})
-					}
+			}
+			p.ref[n] = r
+		case "obj":
+			r := &Ref{kind: ajson.Object}
+			m := p.s.kv(f[2])
+			for k, c := range m {
+				if cr := p.ref[c]; cr != nil {
+					cr.parent = r
+					r.kids = append(r.kids, &RefKid{k, cr})
 				}
-				p.ref[n] = r
-			case "clone":
-				src := p.s.node(f[1])
-				if sr := p.ref[src]; sr != nil {
-					p.link(n, sr.deepCopy())
-				}
+			}
+			p.ref[n] = r
+		case "clone":
+			src := p.s.node(f[1])
+			if sr := p.ref[src]; sr != nil {
+				p.link(n, sr.deepCopy())
+			}
+			if check {
 				p.checkClone(src, n)
 			}
 		}
-		if op == "setnode" && strings.HasPrefix(obs, "ok") {
-			// the receiver's children are new library nodes: link them to the copied reference children
-			n := p.s.node(f[1])
-			if r := p.ref[n]; r != nil {
-				p.link(n, r)
-			}
-		}
-		// C15: a failing mutation changes nothing
-		if mutation && strings.HasPrefix(obs, "err") {
-			o.Check("C15", "error-atomic")
-			if after := p.publicFingerprint(); after != pubBefore {
-				p.fail("C15", "error-atomic", "a mutation returned an error but the forest changed: "+strings.Join(f, " ")+" -> "+obs, firstDiff(pubBefore, after), "")
-			}
-		}
-		// C13: reads, comparisons, Clone, navigation leave the document unchanged
-		if !mutation && op != "parse" && !isConstructor(op) {
-			o.Check("C13", "reads-pure")
-			if after := p.privateFingerprint(nBefore); after != privBefore {
-				p.fail("C13", "reads-pure", "a read-only call changed private state: "+strings.Join(f, " "), firstDiff(privBefore, after), "")
-			}
-		}
-		if op == "eq" || op == "neq" || op == "le" || op == "leq" || op == "ge" || op == "geq" {
-			p.checkCompare(f, obs)
-		}
-		p.checkAll(strings.Join(f, " "))
 	}
+	if op == "setnode" && strings.HasPrefix(obs, "ok") {
+		// the receiver's children are new library nodes: link them to the copied reference children
+		n := p.s.node(f[1])
+		if r := p.ref[n]; r != nil {
+			p.link(n, r)
+		}
+	}
+	if !check {
+		return obs
+	}
+	// C15: a failing mutation changes nothing
+	if mutation && strings.HasPrefix(obs, "err") {
+		o.Check("C15", "error-atomic")
+		if after := p.publicFingerprint(); after != pubBefore {
+			p.fail("C15", "error-atomic", "a mutation returned an error but the forest changed: "+strings.Join(f, " ")+" -> "+obs, firstDiff(pubBefore, after), "")
+		}
+	}
+	// C13: reads, comparisons, Clone, navigation leave the document unchanged
+	if !mutation && op != "parse" && !isConstructor(op) {
+		o.Check("C13", "reads-pure")
+		if after := p.privateFingerprint(nBefore); after != privBefore {
+			p.fail("C13", "reads-pure", "a read-only call changed private state: "+strings.Join(f, " "), firstDiff(privBefore, after), "")
+		}
+	}
+	if op == "eq" || op == "neq" || op == "le" || op == "leq" || op == "ge" || op == "geq" {
+		p.checkCompare(f, obs)
+	}
+	p.checkAll(strings.Join(f, " "))
+	return obs
 }
 
 func isConstructor(op string) bool {
